@@ -56,6 +56,28 @@ fn dump_place(p: &Option<VehiclePlace>) -> Value {
     }
 }
 
+/// reads the instance the way `vrp-cli solve <fmt> <file> [--round]` does: through the format registry of
+/// vrp-cli/src/extensions/solve/formats.rs (`get_formats(is_rounded, random)`), from a file
+fn read_problem_cli(fmt: &str, text: &str, rounded: bool) -> Result<Problem, GenericError> {
+    use std::io::Write;
+    let formats = vrp_cli::extensions::solve::formats::get_formats(rounded, Arc::new(DefaultRandom::default()));
+    let (reader, _, _, _) = formats.get(fmt).ok_or_else(|| GenericError::from(format!("unknown format {fmt}")))?;
+    let path = std::env::temp_dir().join(format!(
+        "vh-c13-{}-{:?}-{}.txt",
+        std::process::id(),
+        std::thread::current().id(),
+        text.len()
+    ));
+    {
+        let mut f = std::fs::File::create(&path).map_err(|e| GenericError::from(e.to_string()))?;
+        f.write_all(text.as_bytes()).map_err(|e| GenericError::from(e.to_string()))?;
+    }
+    let file = std::fs::File::open(&path).map_err(|e| GenericError::from(e.to_string()));
+    let res = file.and_then(|f| (reader.0)(f, None));
+    let _ = std::fs::remove_file(&path);
+    res
+}
+
 fn read_problem(fmt: &str, text: &str, rounded: bool) -> Result<Problem, GenericError> {
     match fmt {
         "solomon" => text.to_string().read_solomon(rounded),
@@ -178,6 +200,10 @@ pub fn run_case(case: &Value) -> Value {
     let fmt = case["fmt"].as_str().unwrap();
     let text = case["text"].as_str().unwrap();
     let rounded = case["rounded"].as_bool().unwrap_or(false);
+    let via_cli = case["via"].as_str() == Some("cli");
+    let read_problem = |fmt: &str, text: &str, rounded: bool| {
+        if via_cli { read_problem_cli(fmt, text, rounded) } else { read_problem(fmt, text, rounded) }
+    };
     match op {
         "read" => match read_problem(fmt, text, rounded) {
             Ok(p) => json!({"status": "ok", "problem": dump_problem(&p)}),
